@@ -1390,6 +1390,23 @@ fn run_pipe(real: &mut Real, direct_flag: bool, payload: u16, kind_direct: bool,
     let mut bb = vec![0u8; data.len() + 8];
     let n = unsafe { libc::read(rb.as_raw_fd(), bb.as_mut_ptr().cast(), bb.len()) };
     same_outcome("pipe read", &a, &if n < 0 { Err(last_err()) } else { Ok(bb[..n as usize].to_vec()) })?;
+    // Message boundaries: two writes, one read with room for both (a pipe
+    // created with O_DIRECT is in packet mode and returns the first only).
+    let what = match (direct_flag, kind_direct) {
+        (true, true) => "pipe(O_DIRECT)@direct two writes, one read",
+        (true, false) => "pipe(O_DIRECT) two writes, one read",
+        (false, true) => "pipe@direct two writes, one read",
+        (false, false) => "pipe two writes, one read",
+    };
+    for part in [&b"abc"[..], &b"defgh"[..]] {
+        let a = real.block_on(wa.write(part.to_vec()))?;
+        let n = unsafe { libc::write(wb.as_raw_fd(), part.as_ptr().cast(), part.len()) };
+        same_outcome(what, &a, &if n < 0 { Err(last_err()) } else { Ok(n as usize) })?;
+    }
+    let a = real.block_on(ra.read(Vec::with_capacity(64)))?;
+    let mut bb = [0u8; 64];
+    let n = unsafe { libc::read(rb.as_raw_fd(), bb.as_mut_ptr().cast(), bb.len()) };
+    same_outcome(what, &a, &if n < 0 { Err(last_err()) } else { Ok(bb[..n as usize].to_vec()) })?;
     Ok(())
 }
 
